@@ -38,7 +38,31 @@ def listing_order(seed):
             dns[:] = d2
             yield dp, dns, perm("f" + os.path.basename(dp), sorted(fns))
 
-    os.listdir, os.walk = listdir, walk
+    class _Scan:
+        def __init__(self, entries):
+            self._it = iter(entries)
+
+        def __iter__(self):
+            return self
+
+        def __next__(self):
+            return next(self._it)
+
+        def __enter__(self):
+            return self
+
+        def __exit__(self, *a):
+            return False
+
+        def close(self):
+            pass
+
+    def scandir(p="."):
+        with o_scandir(p) as it:
+            ents = sorted(it, key=lambda e: e.name)
+        return _Scan(perm("s" + os.path.basename(os.fspath(p)), ents))
+
+    os.listdir, os.walk, os.scandir = listdir, walk, scandir
     try:
         yield
     finally:
